@@ -529,8 +529,27 @@ impl<'a> TypeHumanizer<'a> {
     fn write_array_type<W: Write>(&mut self, inner: &LuaType, w: &mut W) -> fmt::Result {
         let saved = self.level;
         self.level = self.child_level();
-        self.write_type(inner, w)?;
+        let mut elem = String::new();
+        let result = self.write_type(inner, &mut elem);
         self.level = saved;
+        result?;
+        // `T?[]` and `-1[]` do not read back as arrays (`?` must be the last suffix of a type and
+        // unary minus binds weaker than `[]`), so keep such element types grouped.
+        let needs_parens = match inner {
+            LuaType::Union(_) | LuaType::MultiLineUnion(_) => {
+                !(elem.starts_with('(') && elem.ends_with(')'))
+            }
+            LuaType::IntegerConst(i) | LuaType::DocIntegerConst(i) => *i < 0,
+            LuaType::FloatConst(f) => *f < 0.0,
+            _ => false,
+        };
+        if needs_parens {
+            w.write_char('(')?;
+            w.write_str(&elem)?;
+            w.write_char(')')?;
+        } else {
+            w.write_str(&elem)?;
+        }
         w.write_str("[]")
     }
 
